@@ -141,6 +141,9 @@ type Out struct {
 	Direct   []DirectViolation // violations found by the harness itself (panics, crashes of the real code)
 	Notes    []string
 	nEval    int
+	checks   []string // "Definition c<idx> := <term>."
+	checkIdx []int
+	ShardSize int
 }
 
 type DirectViolation struct {
@@ -175,6 +178,14 @@ func (o *Out) Case(desc interface{}, nontrivial bool) int {
 	return len(o.cases) - 1
 }
 
+// Check registers the Coq term (of type nat * nat: correspondence code, oracle code) that decides case idx.
+func (o *Out) Check(idx int, term string) {
+	o.checks = append(o.checks, fmt.Sprintf("Definition c%d := %s.\n", idx, term))
+	o.checkIdx = append(o.checkIdx, idx)
+}
+
+const footer = "Definition bad := Eval vm_compute in filter (fun '(_, (c, o)) => negb ((c =? 0)%nat && (o =? 0)%nat)) results.\nPrint bad.\n"
+
 func (o *Out) Count(key string)          { o.Dist[key]++ }
 func (o *Out) CountN(key string, n int)  { o.Dist[key] += n }
 func (o *Out) Coqf(f string, a ...interface{}) { fmt.Fprintf(&o.coq, f, a...) }
@@ -193,8 +204,29 @@ type Summary struct {
 }
 
 func (o *Out) Finish() {
-	if err := os.WriteFile(filepath.Join(o.dir, "cases.v"), []byte(o.header+o.coq.String()), 0o644); err != nil {
-		panic(err)
+	if len(o.checks) == 0 {
+		if err := os.WriteFile(filepath.Join(o.dir, "cases.v"), []byte(o.header+o.coq.String()), 0o644); err != nil {
+			panic(err)
+		}
+	} else {
+		sz := o.ShardSize
+		if sz <= 0 {
+			sz = 400
+		}
+		for sh := 0; sh*sz < len(o.checks); sh++ {
+			var b strings.Builder
+			b.WriteString(o.header)
+			b.WriteString(o.coq.String())
+			var names []string
+			for i := sh * sz; i < len(o.checks) && i < (sh+1)*sz; i++ {
+				b.WriteString(o.checks[i])
+				names = append(names, fmt.Sprintf("(%d%%nat, c%d)", o.checkIdx[i], o.checkIdx[i]))
+			}
+			b.WriteString("Definition results : list (nat * (nat * nat)) := " + List(names) + ".\n" + footer)
+			if err := os.WriteFile(filepath.Join(o.dir, fmt.Sprintf("cases_%03d.v", sh)), []byte(b.String()), 0o644); err != nil {
+				panic(err)
+			}
+		}
 	}
 	var sb strings.Builder
 	for _, c := range o.cases {
